@@ -136,7 +136,78 @@ func c08Ports(kind string, base int32) []*proto.PortRange {
 		}
 		return out
 	}
+	if strings.HasPrefix(kind, "m") && len(kind) == 4 {
+		// mixed single/range list with a given total of multiport slots (a range costs 2, a single 1) around the
+		// 15-slot limit: "m<slots><order>", order S = singles first, R = ranges first, I = interleaved.
+		total := int32(0)
+		fmt.Sscan(kind[1:3], &total)
+		nSingles := int32(2 - total%2) // 14 -> 2, 15 -> 1, 16 -> 2, 17 -> 1
+		nRanges := (total - nSingles) / 2
+		single := func(i int32) *proto.PortRange {
+			return &proto.PortRange{First: base + 5000 + 10*i, Last: base + 5000 + 10*i}
+		}
+		rng := func(i int32) *proto.PortRange {
+			return &proto.PortRange{First: base + 6000 + 20*i, Last: base + 6010 + 20*i}
+		}
+		var out []*proto.PortRange
+		switch kind[3] {
+		case 'S':
+			for i := int32(0); i < nSingles; i++ {
+				out = append(out, single(i))
+			}
+			for i := int32(0); i < nRanges; i++ {
+				out = append(out, rng(i))
+			}
+		case 'R':
+			for i := int32(0); i < nRanges; i++ {
+				out = append(out, rng(i))
+			}
+			for i := int32(0); i < nSingles; i++ {
+				out = append(out, single(i))
+			}
+		case 'I':
+			si, ri := int32(0), int32(0)
+			for si < nSingles || ri < nRanges {
+				if ri < nRanges {
+					out = append(out, rng(ri))
+					ri++
+				}
+				if si < nSingles {
+					out = append(out, single(si))
+					si++
+				}
+			}
+		}
+		return out
+	}
 	return nil
+}
+
+// family (iii): mixed single/range port lists around the 15-slot multiport limit, in every order, for each of
+// the four port-list fields alone, and for pairs (src+dst, positive+negated of one side).
+func c08MixedPortShapes() []c08Shape {
+	var variants []string
+	for _, t := range []string{"14", "15", "16", "17"} {
+		for _, o := range []string{"S", "R", "I"} {
+			variants = append(variants, "m"+t+o)
+		}
+	}
+	var out []c08Shape
+	mk := func(dv ...c08DV) {
+		sort.SliceStable(dv, func(x, y int) bool { return c08DimIndex(dv[x].Dim) < c08DimIndex(dv[y].Dim) })
+		out = append(out, c08Shape{DV: dv})
+	}
+	for _, v := range variants {
+		for _, d := range []string{"srcPorts", "dstPorts", "notSrcPorts", "notDstPorts"} {
+			mk(c08DV{d, v})
+			mk(c08DV{d, v}, c08DV{"action", "deny"})
+		}
+		mk(c08DV{"srcPorts", v}, c08DV{"dstPorts", v})
+		mk(c08DV{"srcPorts", v}, c08DV{"notSrcPorts", v})
+		mk(c08DV{"dstPorts", v}, c08DV{"notDstPorts", v})
+		mk(c08DV{"proto", "udp"}, c08DV{"dstPorts", v}, c08DV{"dstNamed", "1"})
+	}
+	return out
 }
 
 func c08IDs(prefix string, n string) []string {
@@ -859,7 +930,7 @@ func TestVerif_C08(t *testing.T) {
 		}
 		rr := c08NewRenderers()
 		c.Rule("states = distinct (proto.Rule, IP version) pairs rendered by the real renderer; renderings = states x {iptables,nftables} x {flow logs off,on}; " +
-			"transitions = packets executed by nfsim through the rendered rule + sentinel; packets = full product of boundary values of every field the rule constrains " +
+			"rule shapes = <=3-dimension combinations + block family + mixed single/range port lists around the 15-slot multiport limit; transitions = packets executed by nfsim through the rendered rule + sentinel; packets = full product of boundary values of every field the rule constrains " +
 			"x scratch-bit garbage in the initial mark; non-trivial = rule/IP-version pairs for which both a matching and a non-matching packet were executed")
 		c.Assume("policy chains are entered with the accept, pass and drop mark bits clear (the endpoint/group chains guarantee it); scratch bits and foreign bits are arbitrary")
 		c.Assume("IP-set membership is an abstract boolean tag per (set, src|dst[,port]) — set contents are not materialised")
@@ -897,8 +968,11 @@ func TestVerif_C08(t *testing.T) {
 			blockActions, blockNets = []string{"allow", "deny", "pass", "log"}, []string{"1", "2", "3"}
 		}
 		shapes = append(shapes, c08BlockShapes(blockActions, blockNets)...)
+		nBlockEnd := len(shapes)
+		shapes = append(shapes, c08MixedPortShapes()...)
 		c.Extra("shapes_comb", nComb)
-		c.Extra("shapes_block_family", len(shapes)-nComb)
+		c.Extra("shapes_block_family", nBlockEnd-nComb)
+		c.Extra("shapes_mixed_port_family", len(shapes)-nBlockEnd)
 		c.Extra("max_nondefault_dims", k)
 
 		// one job = one proto.Rule (shape + family); it is rendered for IPv4 and IPv6, both dataplanes,
@@ -915,6 +989,7 @@ func TestVerif_C08(t *testing.T) {
 		seen := map[string]bool{}
 		for i, s := range shapes {
 			block := i >= nComb
+			mixed := i >= nBlockEnd
 			fams := c08Families(s)
 			if block && !thorough {
 				fams = []int{4}
@@ -928,7 +1003,7 @@ func TestVerif_C08(t *testing.T) {
 					continue
 				}
 				seen[s2.sig()] = true
-				j := job{shape: s2, ipvs: []int{4, 6}, flows: []bool{false, true}, fullProbes: thorough && !block}
+				j := job{shape: s2, ipvs: []int{4, 6}, flows: []bool{false, true}, fullProbes: (thorough && !block) || mixed}
 				if !thorough {
 					if (len(fams) == 1 && s.get("ipVersion") == "") || block {
 						j.ipvs = []int{4}
